@@ -7,6 +7,7 @@ CONSTANTS
   AmoReadyStart = FALSE
   WithPaging = TRUE
 CONSTRAINT Progress
+CONSTRAINT Prune
 INVARIANT C01_NoReexecution
 INVARIANT C02_SameObservation
 INVARIANT C03_WriteAhead
